@@ -300,3 +300,85 @@ def equiv_arrays(tag, got, want):
     idx = skolem_index(wa.shape, "r")
     prove(tag + ".values", _eqv(ga.elem(idx), wa.elem(idx)))
     prove(tag + ".unit", same_unit_quantity(got.unit, want.unit))
+
+
+# --------------------------------------------------------------------------------------
+# Array._wrap_numpy: real body against the spec, for one catalogue entry and operand pattern
+# --------------------------------------------------------------------------------------
+def clone(x):
+    Array = O().Array
+    if isinstance(x, Array):
+        c = Array(values=x._array.copy(), unit=x._unit)
+        c.name = x.name
+        return c
+    if isinstance(x, snp.ndarray):
+        return x.copy()
+    if isinstance(x, spint.Quantity):
+        m = x.magnitude
+        return spint.Quantity(m.copy() if isinstance(m, snp.ndarray) else m, x.units)
+    if isinstance(x, (list, tuple)):
+        return type(x)(clone(e) for e in x)
+    return x
+
+
+def build_operands(spec, dims):
+    """spec: list of (kind, shape, unit tag) ; equal tags share one symbolic unit; kind 'const:<v>'
+    is a literal; kind 'seq' wraps the following operands into a list (concatenate)"""
+    units = {}
+    ops = []
+    for j, (kind, shape, tag) in enumerate(spec):
+        name = "abcd"[j]
+        if kind.startswith("const:"):
+            v = float(kind[6:])
+            ops.append(int(v) if v == int(v) and "." not in kind[6:] else v)
+            continue
+        u = None
+        if tag is not None:
+            if tag not in units:
+                fam = None
+                if tag.startswith("compat:"):
+                    fam = units[tag.split(":")[1]]
+                units[tag] = spint.REGISTRY.dimensionless if tag == "dimensionless" else spint.sym_unit("u" + tag.replace(":", "_"), family=fam)
+            u = units[tag]
+        if kind == "BoolArray":
+            x = mk_array(name, dims, shape, unit=spint.REGISTRY.dimensionless, dt=snp.dtype("bool"), kind="b")
+        elif kind == "boolnd":
+            x = mk_ndarray(name, dims, shape, dt=snp.dtype("bool"), kind="b")
+        else:
+            x = mk_operand(kind, name, dims, shape, unit=u)
+        ops.append(x)
+    return ops
+
+
+def check_wrap_numpy(fname, spec, kwargs=None, seq=False, out=False):
+    """run the real Array._wrap_numpy and its spec on identical (cloned) operands; compare"""
+    Array = O().Array
+    f = getattr(snp, fname)
+    dims = Dims()
+    ops = build_operands(spec, dims)
+    clones = [clone(x) for x in ops]
+    self_ = next(o for o in ops if isinstance(o, Array))
+    cself = next(o for o in clones if isinstance(o, Array))
+    kw, ckw = dict(kwargs or {}), dict(kwargs or {})
+    if out:
+        kw["out"] = (self_,)
+        ckw["out"] = (cself,)
+    args, cargs = (ops, clones) if not seq else ([ops], [clones])
+    excs = (TypeError, ValueError, spint.DimensionalityError)
+    try:
+        want, want_exc = wrap_numpy_spec(cself, f, *cargs, **ckw), None
+    except excs as e:
+        want, want_exc = None, e
+    try:
+        got, got_exc = self_._wrap_numpy(f, *args, **kw), None
+    except excs as e:
+        got, got_exc = None, e
+    if want_exc is not None or got_exc is not None:
+        prove("raises_as_spec", type(want_exc) is type(got_exc))
+        return None, ops
+    if out:
+        prove("out.same_object", got is self_)
+    else:
+        prove("fresh_object", all(got is not o for o in ops))
+    equiv_arrays("spec", got, want)
+    return got, ops
